@@ -693,6 +693,41 @@ func enumC14(c *oracleCfg, chk func(fam, s string, nt bool)) {
 		chk("sentence2", word()+" "+word()+"! "+word()+"?", true)
 		chk("sentence3", word()+" "+word()+": "+word()+" "+num()+".", true)
 	}
+	// enumerations: the only way a benign text is read past the first five tokens is a comma list (`x , y` drops two
+	// tokens per round), so limits on tokens read / bytes scanned show only here. Lists of every run length, and lists
+	// padded so that a word derived from a keyword straddles the usual sizes.
+	// (the list-based model is quadratic in the number of tokens: 8 kB of list cost it 1.5 s, 16 kB 6 s — sizes are chosen accordingly)
+	maxRun, sizes := 2049, []int{1024, 2048, 4096, 8192}
+	if c.thorough() {
+		maxRun, sizes = 4097, append(sizes, 16384)
+	}
+	for _, k := range []int{2, 3, 5, 8, 16, 31, 32, 33, 64, 127, 128, 129, 255, 256, 257, 511, 512, 513, 1023, 1024, 1025, 2047, 2048, 2049, 4095, 4096, 4097} {
+		if k > maxRun {
+			continue
+		}
+		chk("enumeration", "1"+strings.Repeat(", 1", k), true)
+		chk("enumeration", "a"+strings.Repeat(", b", k), true)
+		if k <= 1025 {
+			chk("enumeration", "apples"+strings.Repeat(", 12 pears", k)+".", true)
+		}
+	}
+	for _, size := range sizes {
+		for _, w := range []string{"unions", "selected", "exceptional"} {
+			if comp[strings.ToUpper(w)] {
+				continue
+			}
+			for _, head := range []string{"11", "ab"} {
+				for d := -len(w) - 1; d <= 1; d++ { // the word slides across the boundary
+					n := (size + d - len(head) - 1) / 3
+					if n < 1 {
+						continue
+					}
+					pad := size + d - len(head) - 1 - 3*n // 0..2 extra bytes
+					chk("enumeration", head+strings.Repeat("1", pad)+strings.Repeat(", 1", n)+" "+w, true)
+				}
+			}
+		}
+	}
 	// long identifiers at every position: words longer than the 32-byte token window whose tail (from
 	// byte 31, 32 or 33 on) spells a keyword, after leading tokens of various lengths
 	kwTails := []string{"select", "union", "like", "or", "and", "case", "not", "from", "where", "in", "is", "null", "sleep", "exec", "having"}
